@@ -180,6 +180,7 @@ static void PrintStmt(const Scenario& sc, const Stmt& s, std::string* o) {
   if (!s.oo_ins.empty()) { *o += " ||"; for (auto& p : s.oo_ins) *o += " " + NinjaPathEscape(p); }
   if (!s.validations.empty()) { *o += " |@"; for (auto& p : s.validations) *o += " " + NinjaPathEscape(p); }
   *o += "\n";
+  if (s.phony && !s.pool.empty()) *o += "  pool = " + s.pool + "\n";
   if (!s.dyndep.empty() && !DyndepOnRule(s)) *o += "  dyndep = " + NinjaValueEscape(s.dyndep) + "\n";
   if (DepsOnBuild(s)) {
     if (s.deps_kind == 1 || s.deps_kind == 2) *o += "  depfile = " + NinjaValueEscape(s.depfile) + "\n";
@@ -379,6 +380,7 @@ struct Gen {
     }
     int n = 2 + (int)C((uint32_t)std::max(1, gp.max_stmts - 1));
     for (int i = 0; i < n; i++) MakeStmt(i);
+    MakeAliasLadder();
     if (Has(F_REGEN) && C(3) == 0) MakeRegen();
     if (Has(F_DYNDEP)) MakeDyndeps();
     if (Has(F_VALIDATION)) MakeValidations();
@@ -410,6 +412,11 @@ struct Gen {
       s.phony = true;
       snprintf(b, sizeof b, "ph%d", i);
       s.outs.push_back(Deco(b, 2));
+      // one alias in four sits in a pool (a `pool =` binding is legal on any build statement): it
+      // runs no command but passes through the pool's accounting like one
+      if (!sc.pools.empty() && Hash64(s.outs[0], (uint64_t)i * 5 + 2) % 4 == 0) {
+        auto it = sc.pools.begin(); std::advance(it, (long)(Hash64(s.outs[0], 77) % sc.pools.size())); s.pool = it->first;
+      }
       // a quarter of the aliases name two things at once
       if (Has(F_MULTIOUT) && Hash64(s.outs[0], (uint64_t)i * 3 + 1) % 4 == 0) { snprintf(b, sizeof b, "ph%db", i); s.outs.push_back(Deco(b, 6)); }
       else if (Has(F_MULTIOUT) && Hash64(s.outs[0], (uint64_t)i * 3 + 1) % 4 == 1) { snprintf(b, sizeof b, "ph%di", i); s.imp_outs.push_back(Deco(b, 7)); }
@@ -499,6 +506,43 @@ struct Gen {
     sc.stmts.push_back(s);
     for (auto& o : s.outs) { avail.push_back(o); gen_outs.push_back(o); }
     for (auto& o : s.imp_outs) { avail.push_back(o); gen_outs.push_back(o); }
+  }
+
+  // One scenario in five with aliases and restat: a ladder of two or three aliases on top of a
+  // restat statement's output, and a command that reads the top one. When the restat command
+  // leaves its output alone, several aliases and a command leave the plan at once while other
+  // work may still be pending - the plan's bookkeeping of wanted edges and commands must agree.
+  // (No tape draws: the choice is a hash of the scenario so far.)
+  void MakeAliasLadder() {
+    if (!Has(F_PHONY) || !Has(F_RESTAT) || gp.cycles) return;
+    uint64_t x[2] = {(uint64_t)sc.stmts.size(), sc.features};
+    uint64_t h = Hash64(x, sizeof x, 1234);
+    if (h % 5 != 0) return;
+    int base = -1;
+    for (const Stmt& q : sc.stmts) if (!q.phony && q.restat && !q.generator && !q.outs.empty() && q.pool != "console") { base = q.id; break; }
+    if (base < 0) return;
+    std::string below = sc.stmts[base].outs[0];
+    int rungs = 2 + (int)((h >> 8) % 2);
+    char b[32];
+    for (int k = 0; k < rungs; k++) {
+      Stmt a;
+      a.id = (int)sc.stmts.size();
+      a.phony = true;
+      snprintf(b, sizeof b, "lad%d", a.id);
+      a.outs.push_back(Deco(b, 2));
+      a.ins.push_back(below);
+      below = a.outs[0];
+      sc.stmts.push_back(a);
+      avail.push_back(below);
+    }
+    Stmt c;
+    c.id = (int)sc.stmts.size();
+    c.key = (int)((h >> 16) % 50);
+    snprintf(b, sizeof b, "o%d", c.id);
+    c.outs.push_back(Deco(b, 3));
+    c.ins.push_back(below);
+    sc.stmts.push_back(c);
+    avail.push_back(c.outs[0]); gen_outs.push_back(c.outs[0]);
   }
 
   void MakeRegen() {
@@ -603,7 +647,25 @@ struct Gen {
           e.imp_ins.push_back(y.outs[0]);
           // (the reference to s stays valid: the island is appended after the loop)
         }
-        if (C(3) == 0 && s.deps_kind < 2) { char ob[32]; snprintf(ob, sizeof ob, "o%dx", cid); e.imp_outs.push_back(ob); }
+        if (C(3) == 0 && s.deps_kind < 2) {
+          char ob[32]; snprintf(ob, sizeof ob, "o%dx", cid); e.imp_outs.push_back(ob);
+          // Half of the time, when the dyndep file is a source file (read while the graph is scanned): a
+          // later statement names that output in the manifest itself, as an implicit input behind an explicit
+          // dependency on the producer's main output. Until the dyndep file is loaded the path is a plain
+          // input without a rule - a node that is consumed but, as far as the manifest goes, not produced.
+          // (No tape draws: a hash decides.)
+          if (dd.producer < 0 && Hash64(std::string(ob), (uint64_t)cid * 11 + 6) % 2 == 0) {
+            for (Stmt& q : sc.stmts) {
+              if (q.id <= cid || q.regen || q.phony || !q.dyndep.empty() || q.outs.empty()) continue;
+              bool names = false;
+              for (auto* w : {&q.ins, &q.imp_ins, &q.oo_ins}) if (std::find(w->begin(), w->end(), s.outs[0]) != w->end()) names = true;
+              if (names && (q.ins.empty() || q.ins[0] != s.outs[0])) continue;
+              if (!names) q.ins.insert(q.ins.begin(), s.outs[0]);
+              q.imp_ins.push_back(ob);
+              break;
+            }
+          }
+        }
         e.restat = C(4) == 0;
         dd.entries.push_back(e);
       }
